@@ -1,1 +1,3 @@
 -- root of the property-theorem library; one import per file
+import IOptProps.C09
+import IOptProps.C07num
